@@ -23,7 +23,7 @@ PROPS["C15"] = {
     "assumptions": ["math/big and crypto/sha512 are correct", "verifref ecvrf/h2c transcriptions are faithful (checked against RFC 9381 B.3 and RFC 9380 vectors)"],
     "units": [
         {
-            "pkg": "primitives/ed25519/extra/ecvrf", "configs": ALL4,
+            "pkg": "primitives/ed25519/extra/ecvrf", "configs": ALL4T,
             "tests": {
                 "TestC15ProveVerify": T(600, 20000, shards={"quick": 4, "thorough": 16}),
                 "TestC15VerifyRejects": T(1000, 28000, shards={"quick": 4, "thorough": 16}),
